@@ -786,6 +786,22 @@ func (w *updWorld) judge(done []string, shape string, old, items updList, fp, fd
 	why := k.undecided(old, items, fp, fd)
 	w.stats["spec:"+updFirstNonEmpty(why, "decided")]++
 	if why != "" {
+		if why == "selector-matches-several" && !fast {
+			// beyond the SPEC's map reading, the weaker reading of "confines" (theorem c02_selector_first_match): the
+			// first matching item in stored order receives the overlay, every other item is exactly as before
+			want := updCloneList(k.afterDelete(old, fd))
+			for i, it := range want {
+				if k.matches(fp.sel, it) {
+					want[i] = updSpecOverlay(items[0], it)
+					break
+				}
+			}
+			if updListS(after) != updListS(want) {
+				w.r.SpecFail("C02/selector-several-matches:"+shape, done, fmt.Sprintf("%s: the selector matches several items; data after the update %s, expected the first match overlaid and nothing else changed: %s", w.s.Name, updListS(after), updListS(want)))
+			}
+			w.stats["spec:several-matches-judged"]++
+			return
+		}
 		if why == "update-items-not-well-formed" && !fast {
 			// observation (i) of DESIGN §8 C02: duplicates inside one update end up in the store
 			if _, ok := k.listAsMapS(after); !ok && k.wellFormedData(old) {
@@ -2041,7 +2057,7 @@ func TestUpdate(t *testing.T) {
 		r.Floor("updates that changed the stored data", w.stats["changed"], total, 0.25)
 		local := 0
 		for k, n := range w.stats {
-			if strings.HasPrefix(k, "spec:") && k != "spec:idempotence-checked" {
+			if strings.HasPrefix(k, "spec:") && k != "spec:idempotence-checked" && k != "spec:several-matches-judged" {
 				local += n
 			}
 		}
@@ -2078,7 +2094,12 @@ func TestUpdate(t *testing.T) {
 				enum[name] = "not present in this tree"
 				continue
 			}
-			ops, total := updEnumerate(s, 200000, 60000)
+			// in full where the space is small enough (and for the first single-key shape with a write flag), strided otherwise
+			fullUpTo := 100000
+			if name == updRepresentative[0] {
+				fullUpTo = 200000
+			}
+			ops, total := updEnumerate(s, fullUpTo, 60000)
 			for _, op := range ops {
 				w.runUpdOps([]string{op})
 			}
